@@ -352,11 +352,10 @@ def gen(seed, tier):
     stats = {"corpus": 0, "tables": 0, "hand": 0, "R_valid": 0, "R_unsorted_dup_unknown": 0, "R_wrong_type": 0, "R_nul": 0,
              "R_prefix": 0, "R_mutation": 0, "R_keylen": 0, "R_deep": 0, "R_random_table": 0, "W_roundtrip": 0,
              "W_mismatch": 0, "R_exhaustive": 0}
-    cdir = os.path.join(os.path.dirname(os.path.dirname(os.path.abspath(__file__))), "corpus", "C07")
+    # own directory: gen/c07.py feeds every file of corpus/C07 to the base drivers
+    cdir = os.path.join(os.path.dirname(os.path.dirname(os.path.abspath(__file__))), "corpus", "C07SM")
     if os.path.isdir(cdir):
         for f in sorted(os.listdir(cdir)):
-            if not f.startswith("sm"):
-                continue
             for l in open(os.path.join(cdir, f)):
                 l = l.strip()
                 if l and not l.startswith("#"):
